@@ -100,19 +100,85 @@ func (w *world) opFollowerApplies() {
 }
 
 // followerApplies runs up to n steps of the follower's local replication loop.
+//
+// Oracle of the local loop (what the follower's log life cycle of this generator rests on; callers
+// guarantee an open partition object of a live follower and no step in flight):
+//   - the local replicator is "always ready" (replicator_local.go State): with >= 1 unconsumed
+//     message in the log the step runs, it never reports not-ready / waits-for-data;
+//   - every step consumes exactly the next position; the consumed and the acknowledged position
+//     never pass the appended position of the log and the acknowledged never passes the consumed;
+//   - a message the local replicator has to drop (the harness' messages are not decodable) is
+//     acknowledged at once when it is the next one after the acknowledged position
+//     (replicator.IgnoreMessage: "if it has error after replica msg, need try ack sequence"), so a
+//     loop that started with acknowledged == consumed ends with acknowledged == consumed ==
+//     start+k - neither behind (the log would never become "without data left", the follower's
+//     wal task could never destroy it) nor anywhere else.
 func (w *world) followerApplies(f *follower, n int) int {
+	if w.pf && n > 12 {
+		// page fault histories start at a position base > 0: a brand-new local consumer group starts at
+		// -1 (production) and would walk over base positions it cannot read, one step each
+		n = 12
+	}
+	r := replica.VerifReplicator(f.part, f.id)
+	var ack0, cons0, pend0 int64
+	if r != nil {
+		ack0, cons0, pend0 = r.AckIndex(), r.ReplicaIndex()-1, r.Pending()
+	}
 	k := 0
 	for ; k < n; k++ {
-		if replica.VerifReplicaStepNoWait(f.part, f.id) != replica.VerifStepDone {
+		res := replica.VerifReplicaStepNoWait(f.part, f.id)
+		if res != replica.VerifStepDone {
+			if r != nil && int64(k) < pend0 {
+				w.fatalf("follower %d: the local replication loop does not run (step result %d: 1=not ready, 2=waits for data) though %d of the %d unconsumed messages of its log are left (consumed=%d acknowledged=%d appended=%d before the loop)",
+					f.id, res, pend0-int64(k), pend0, cons0, ack0, f.app())
+			}
 			break
+		}
+		if r != nil {
+			cons, ack, app := r.ReplicaIndex()-1, r.AckIndex(), f.app()
+			if cons != cons0+int64(k)+1 {
+				w.fatalf("follower %d: local step %d consumed up to %d, expected exactly the next position %d", f.id, k+1, cons, cons0+int64(k)+1)
+			}
+			if ack > cons || cons > app {
+				w.fatalf("follower %d: after local step %d acknowledged=%d consumed=%d appended=%d (must be acknowledged <= consumed <= appended)", f.id, k+1, ack, cons, app)
+			}
+		}
+	}
+	if r != nil {
+		switch {
+		case pend0 <= 0:
+			w.class("local-apply:nothing-unconsumed")
+		case ack0 == cons0:
+			w.class("local-apply:backlog:acknowledged==consumed-before")
+		default:
+			w.class("local-apply:backlog:acknowledged<consumed-before")
 		}
 	}
 	if k > 0 {
 		ack, _ := w.localAck(f)
+		if r != nil && ack0 == cons0 {
+			if ack != cons0+int64(k) {
+				w.fatalf("follower %d: %d undecodable messages dropped by the local replicator from position %d on (acknowledged == consumed == %d before), acknowledged position is %d afterwards, expected %d: a dropped message next to the acknowledged position is acknowledged at once",
+					f.id, k, cons0+1, cons0, ack, cons0+int64(k))
+			}
+			w.class(fmt.Sprintf("local-apply:dropped-messages-acknowledged:%s", bucketSteps(k)))
+		}
 		w.logf("follower %d applies %d messages of its log to its storage engine (log appended=%d, applied+acknowledged up to %d)", f.id, k, f.app(), ack)
 		w.class("follower-applies-log-locally")
 	}
 	return k
+}
+
+func bucketSteps(k int) string {
+	switch {
+	case k == 1:
+		return "1"
+	case k <= 3:
+		return "2-3"
+	case k <= 10:
+		return "4-10"
+	}
+	return ">10"
 }
 
 // opReplicateThenWalTask: replication to one follower goes on for a while over its stream (1..8
